@@ -5,8 +5,7 @@ from pv import gallina as G
 from pv.canon import B, Exc, T, Val, outcome, unB
 
 from props import _c19_gen as GEN
-from props._c19_gen import (battery_files, cpufreq_sysfs, fans_effective, sorted_fan_chips, sorted_temp_chips,
-                            sorted_zones, visible)
+from props._c19_gen import battery_files, cpufreq_sysfs, sorted_fan_chips, sorted_temp_chips, sorted_zones
 
 ID = "C19"
 COQ_REQUIRE = "C19.Run"
@@ -15,8 +14,9 @@ RULE = ("layouts of /sys/class/hwmon (0-4 chips x 0-5 temp/fan sensors, direct o
         "input/max/crit/label/name present, absent or unreadable, non-numeric inputs and thresholds, negative and zero values), "
         "/sys/class/thermal (zones with 0-4 trip points), /sys/class/power_supply (0-3 batteries, alternative energy_/charge_ "
         "and power_/current_ names, capacity, status, AC0/AC adapters, missing directory), cpufreq policies (both nestings, "
-        "offline CPUs, cpuinfo-sourced current frequency, both import-time implementations), /proc/cpuinfo and /proc/stat printed "
-        "from records, plus a raw stream of malformed file contents compared with the model only. A case is non-trivial when "
+        "offline CPUs, cpuinfo-sourced current frequency, both import-time implementations), /proc/cpuinfo (x86 blocks, ARM "
+        "blocks with and without the old 'Processor' header, dropped/duplicated lines) and /proc/stat printed from records, "
+        "coretemp platform chips, mixed fan nesting, plus a raw stream of malformed file contents compared with the model only. A case is non-trivial when "
         "at least one sensor/battery/CPU/line exists; distinct = distinct canonical case hash.")
 TRUSTED = ["correspondence harness props/C19.py + props/_c19_gen.py + pv/ (fake /sys and /proc trees behind pv.shim, "
            "PermissionError injection, os.sysconf patch, importlib.reload of psutil._pslinux to re-run the import-time "
@@ -71,8 +71,28 @@ def g_alt(a):
     return "(Build_kalt %s %s)" % (g_text(a[0]), g_text(a[1]))
 
 
-def g_proc(p):
-    return "(Build_kproc %s %s %s %s %s)" % tuple(G.by(p[k]) for k in ("index", "mhz_i", "mhz_f", "pid", "cores"))
+def g_cline(l):
+    k = l[0]
+    if k == "other":
+        return "(COther %s %s %s)" % (G.by(l[1]), G.bo(l[2]), G.by(l[3]))
+    if k == "mhz":
+        return "(CMhz %s %s)" % (G.by(l[1]), G.by(l[2]))
+    return "(%s %s)" % ({"proc": "CProcessor", "pid": "CPhysId", "cid": "CCoreId", "cores": "CCores"}[k], G.by(l[1]))
+
+
+def g_blocks(blocks):
+    return G.lst([G.lst([g_cline(l) for l in b]) for b in blocks])
+
+
+def g_tchip(c):
+    ss = ["(Build_ksensor %s %s %s %s %s)" % (g_num(s["input"]), g_num(s["max"]), g_num(s["crit"]),
+                                             g_text(s["label"]), G.bo(s["other"])) for s in c["sensors"]]
+    return "(Build_kchip %s %s)" % (g_text(c["name"]), G.lst(ss))
+
+
+def g_zone(z):
+    ts = ["(Build_ktrip %s %s)" % (g_text(t["type"]), g_num(t["temp"])) for t in z["trips"]]
+    return "(Build_kzone %s %s %s)" % (g_num(z["temp"]), g_text(z["type"]), G.lst(ts))
 
 
 def g_statline(l):
@@ -108,16 +128,13 @@ def g_bat(b):
 def coq_term(case):
     k = case["kind"]
     if k == "temps":
-        chips = []
-        for c in sorted_temp_chips(case["chips"]):
-            ss = ["(Build_ksensor %s %s %s %s %s)" % (g_num(s["input"]), g_num(s["max"]), g_num(s["crit"]),
-                                                     g_text(s["label"]), G.bo(s["other"])) for s in c["sensors"]]
-            chips.append("(Build_kchip %s %s)" % (g_text(c["name"]), G.lst(ss)))
-        zones = []
-        for z in sorted_zones(case["zones"]):
-            ts = ["(Build_ktrip %s %s)" % (g_text(t["type"]), g_num(t["temp"])) for t in z["trips"]]
-            zones.append("(Build_kzone %s %s %s)" % (g_num(z["temp"]), g_text(z["type"]), G.lst(ts)))
-        return "run_temps %s %s %s" % (G.lst(chips), G.lst(zones), G.bo(case["fahr"]))
+        return "run_temps %s %s %s" % (G.lst([g_tchip(c) for c in sorted_temp_chips(case["chips"])]),
+                                       G.lst([g_zone(z) for z in sorted_zones(case["zones"])]), G.bo(case["fahr"]))
+    if k == "temps_coretemp":
+        return "run_temps_coretemp %s %s %s %s" % (
+            G.lst([g_tchip(c) for c in sorted_temp_chips(case["chips"])]),
+            G.lst([g_tchip(c) for c in sorted_temp_chips(case["plat"])]),
+            G.lst([g_zone(z) for z in sorted_zones(case["zones"])]), G.bo(case["fahr"]))
     if k == "temps_raw":
         es = ["(Build_tentry %s %s %s %s %s)" % tuple(g_raw(e[f]) for f in ("input", "name", "max", "crit", "label"))
               for e in case["entries"]]
@@ -128,9 +145,9 @@ def coq_term(case):
         return "run_temps_raw %s %s %s" % (G.lst(es), G.lst(zs), G.bo(case["fahr"]))
     if k == "fans":
         chips = []
-        for c in sorted_fan_chips(fans_effective(case["chips"])):
+        for c in sorted_fan_chips(case["chips"]):
             fs = ["(Build_kfan %s %s %s)" % (g_num(f["input"]), g_text(f["label"]), G.bo(f["other"])) for f in c["fans"]]
-            chips.append("(Build_kfanchip %s %s)" % (g_text(c["name"]), G.lst(fs)))
+            chips.append("(%s, Build_kfanchip %s %s)" % (G.bo(c["nested"]), g_text(c["name"]), G.lst(fs)))
         return "run_fans %s" % G.lst(chips)
     if k == "fans_raw":
         es = ["(Build_fentry %s %s %s)" % tuple(g_raw(e[f]) for f in ("input", "name", "label")) for e in case["entries"]]
@@ -145,7 +162,7 @@ def coq_term(case):
                                              g_raw(case["ac0"]), g_raw(case["ac"]))
     if k == "cpufreq":
         cpus = sorted(case["cpus"], key=lambda c: c["idx"])
-        return "run_cpufreq %s %s %s" % (G.bo(cpufreq_sysfs(case)), G.lst([g_proc(p) for p in case["procs"]]),
+        return "run_cpufreq %s %s %s" % (G.bo(cpufreq_sysfs(case)), g_blocks(case["blocks"]),
                                          G.lst([g_cpu(c) for c in cpus]))
     if k == "cpufreq_raw":
         cpus = sorted(case["cpus"], key=lambda c: c["idx"])
@@ -154,7 +171,7 @@ def coq_term(case):
         return "run_cpufreq_raw %s %s %s" % (G.bo(cpufreq_sysfs(case)), g_raw(case["cpuinfo"]), G.lst(ps))
     if k == "cpucount":
         sc = "None" if case["sysconf"] is None else "(Some %s)" % G.z(case["sysconf"])
-        return "run_cpucount %s %s %s %s" % (sc, G.lst([g_proc(p) for p in case["procs"]]),
+        return "run_cpucount %s %s %s %s" % (sc, g_blocks(case["blocks"]),
                                              G.lst([g_statline(l) for l in case["stat"]]),
                                              G.lst([g_text(x) for x in case["lists"]]))
     if k == "cpucount_raw":
@@ -202,22 +219,33 @@ def coq_struct(case, raw):
         return {"printed": raw[0], "model": sort_dict_outcome(raw[1]), "spec": spec}
     if k == "fans":
         spec = None if raw[2] is None else sort_dict_outcome(raw[2])
-        return {"printed": raw[0], "model": sort_dict_outcome(raw[1]), "spec": spec}
+        return {"printed": raw[0], "model": sort_dict_outcome(raw[1]), "spec": spec, "mixed": raw[3]}
+    if k == "temps_coretemp":
+        spec = None if raw[2] is None else sort_dict_outcome(raw[2])
+        return {"printed": raw[0], "model": sort_dict_outcome(raw[1]), "spec": spec, "plat_readable": raw[3]}
     if k in ("temps_raw", "fans_raw"):
         return {"model": sort_dict_outcome(raw[0]), "spec": None}
     if k == "battery":
         return {"printed": raw[0], "model": raw[1], "spec": raw[2], "secs_exact": raw[3]}
     if k in ("battery_raw", "cpufreq_raw", "cpucount_raw", "stat_raw"):
         return {"model": raw[0], "spec": None}
-    if k in ("cpufreq", "cpucount", "stat"):
+    if k == "cpucount":
+        return {"printed": raw[0], "model": raw[1], "spec": raw[2], "no_processor_like": raw[3]}
+    if k in ("cpufreq", "stat"):
         return {"printed": raw[0], "model": raw[1], "spec": raw[2]}
     raise ValueError(k)
 
 
 # ------------------------------------------------------------------ verdicts
 def finding_key(case, coq):
-    # no known (unrepaired) finding: the three defects this check found were repaired in /repo
-    # (3a32a00, e09e22a, 60747a2); their inputs live in corpus/C19 and are replayed first on every run
+    """classes of the known (unrepaired) findings, computed from the input"""
+    k = case["kind"]
+    if k == "fans" and coq.get("mixed") is True:
+        return "fans-mixed-nesting"
+    if k == "temps_coretemp" and coq.get("plat_readable") is True:
+        return "temps-coretemp-platform-ignored"
+    if k == "cpucount" and case["sysconf"] is None and coq.get("no_processor_like") is False:
+        return "cpu-count-arm-processor-header"
     return None
 
 
@@ -272,12 +300,16 @@ MANIFEST = {
             "now*3600/power, UNLIMITED on mains, UNKNOWN otherwise, None without battery or without the power_supply directory, for "
             "every subset of the alternative files, the battery reported being the least by name; cpu_freq() per-CPU values are "
             "kHz/1000 with offline CPUs zero and the mean is the arithmetic mean; cpu_stats()/boot_time() return the "
-            "ctxt/intr/softirq/btime fields of every printed /proc/stat. Refuted-theorems record the three defects found and "
+            "ctxt/intr/softirq/btime fields of every printed /proc/stat; over every printed /proc/cpuinfo (x86 and ARM shapes) the "
+            "'cpu MHz' scan returns the values in order (cpuinfo implementation of cpu_freq; current-from-cpuinfo rule when the count "
+            "equals the number of policies, exact for %u.%03u), cpu_count(logical) = sysconf, else the 'processor' lines, else the "
+            "cpuN lines of /proc/stat, cpu_count(cores) = distinct topology lists, else sum over packages of 'cpu cores'. Three "
+            "known findings carry refuted theorems: ARM 'Processor' header counted as a CPU, coretemp platform sensors ignored, fans "
+            "below device/ ignored when direct fan files exist. Refuted-theorems also record the three defects found and "
             "repaired (code before 60747a2, e09e22a, 3a32a00). "
             "The hand-written model is tied to the code by executing both (vm_compute vs the real psutil over a fake /sys and "
             "/proc behind a path-rewriting shim) on generated layouts.",
     "note": "Trusted: Coq kernel + vm_compute; model coq/C19/Model.v (tied by the correspondence run only); kernel formats in "
             "coq/C19/Spec.v; harness (glob/sort order, shim, reload of _pslinux for the import-time cpu_freq choice); CPython "
-            "float/int/strip; IEEE doubles (exact rationals in the model, 2^-48 tolerance). cpu_count() fallbacks and the "
-            "cpuinfo MHz parser are covered by the correspondence run and line-level lemmas only (see notes/design/C19.md).",
+            "float/int/strip; IEEE doubles (exact rationals in the model, 2^-48 tolerance).",
 }
